@@ -25,6 +25,7 @@ def run(check: Check, repo: Repo, tier: str) -> None:
     T.one_yield(check, repo)
     T.subscription_convert(check, repo)
     T.fresh_state(check, repo)
+    T.derived_state(check, repo)
     X.fin_cleanup(check, repo)
     T.cm_no_swallow(check, repo, repo.package_modules('execution') + repo.package_modules('pyutils'))
     T.stream_disabled(check, repo)
